@@ -470,45 +470,86 @@ def expand_item(repo, relfile, selector, body, tmpl_name, tmpl_line, opts):
             while pos < fp.body_close and m[pos].isspace():
                 pos += 1
             end = rs.statement_end(m, pos, fp.body_close)
-            mh = re.match(r"let\s+([A-Za-z_][A-Za-z0-9_]*)\s*=\s*(.+?)\s*\.\s*iter\s*\(\s*\)\s*\.\s*positions\s*\(", m[pos:end], re.S)
+            mh = re.match(r"let\s+([A-Za-z_][A-Za-z0-9_]*)\s*=\s*(.+?)\s*\.\s*iter\s*\(\s*\)", m[pos:end], re.S)
             if not mh:
-                raise LostAnchor("%s: positions-chain: statement `%s ..` is not `let x = E.iter().positions(..)`" % (selector, prefix))
+                raise LostAnchor("%s: positions-chain: statement `%s ..` is not `let x = E.iter()..`" % (selector, prefix))
             name_, recv = mh.group(1), _norm(src[pos + mh.start(2):pos + mh.end(2)])
-            stages = []
-            k = pos + mh.end() - 1
+            # the adapters, in order: [skip(A)] [take(B)] positions(|x| P) {filter(|&y| F) | map(|y| G)}* collect_vec()
+            skip_e = take_e = None
+            stages = []          # (kind, binder, body)
+            k = pos + mh.end()
             while True:
-                close = rs.match_close(m, k)
-                mc = re.match(r"\s*\|\s*(&?)\s*([A-Za-z_][A-Za-z0-9_]*)\s*\|\s*(.*)$", src[k + 1:close], re.S)
-                if not mc or not re.match(r"\s*\|\s*&?\s*[A-Za-z_][A-Za-z0-9_]*\s*\|", m[k + 1:close]):
-                    raise LostAnchor("%s: positions-chain: stage %d is not a closure literal `|x| ..`" % (selector, len(stages) + 1))
-                stages.append((mc.group(1), mc.group(2), mc.group(3).strip()))
-                mn = re.match(r"\s*\.\s*([A-Za-z_][A-Za-z0-9_]*)\s*\(", m[close + 1:end])
+                mn = re.match(r"\s*\.\s*([A-Za-z_][A-Za-z0-9_]*)\s*\(", m[k:end])
                 if not mn:
                     raise LostAnchor("%s: positions-chain: chain does not end in .collect_vec()" % selector)
-                if mn.group(1) == "filter":
-                    k = close + 1 + mn.end() - 1
-                    continue
-                if mn.group(1) != "collect_vec" or not re.match(r"\s*\)\s*;\s*$", m[close + 1 + mn.end():end]):
-                    raise LostAnchor("%s: positions-chain: unsupported adapter `.%s(` in the chain" % (selector, mn.group(1)))
-                break
-            if stages[0][0] == "&" or any(a != "&" for (a, _x, _b) in stages[1:]):
-                raise LostAnchor("%s: positions-chain: closure binders are not `|x|` then `|&y|`" % selector)
+                ad = mn.group(1)
+                par = k + mn.end() - 1
+                close = rs.match_close(m, par)
+                argt = src[par + 1:close]
+                if ad == "collect_vec":
+                    if argt.strip() or not re.match(r"\s*;\s*$", m[close + 1:end]) or not stages:
+                        raise LostAnchor("%s: positions-chain: unsupported tail after collect_vec / no positions stage" % selector)
+                    break
+                if ad in ("skip", "take") and not stages and ((ad == "skip" and skip_e is None and take_e is None) or (ad == "take" and take_e is None)):
+                    if ad == "skip":
+                        skip_e = argt.strip()
+                    else:
+                        take_e = argt.strip()
+                elif ad == "positions" and not stages:
+                    mc = re.match(r"\s*\|\s*([A-Za-z_][A-Za-z0-9_]*)\s*\|\s*(.*)$", argt, re.S)
+                    if not mc or not re.match(r"\s*\|\s*[A-Za-z_][A-Za-z0-9_]*\s*\|", m[par + 1:close]):
+                        raise LostAnchor("%s: positions-chain: positions() does not take a closure literal `|x| ..`" % selector)
+                    stages.append(("positions", mc.group(1), mc.group(2).strip()))
+                elif ad in ("filter", "map") and stages:
+                    mc = re.match(r"\s*\|\s*(&?)\s*([A-Za-z_][A-Za-z0-9_]*)\s*\|\s*(.*)$", argt, re.S)
+                    if not mc or not re.match(r"\s*\|\s*&?\s*[A-Za-z_][A-Za-z0-9_]*\s*\|", m[par + 1:close]) \
+                            or (mc.group(1) == "&") != (ad == "filter"):
+                        raise LostAnchor("%s: positions-chain: %s() does not take a closure literal `%s`" % (selector, ad, "|&x| .." if ad == "filter" else "|x| .."))
+                    stages.append((ad, mc.group(2), mc.group(3).strip()))
+                else:
+                    raise LostAnchor("%s: positions-chain: unsupported adapter `.%s(` in the chain" % (selector, ad))
+                k = close + 1
             here = ("repo", relfile, line_of(src, pos))
-            add(pos, pos, "let mut %s: Vec<usize> = Vec::new(); let mut %s: usize = 0;\n        while %s < %s.len()\n" % (name_, iv, iv, recv),
-                here, "T15", "statement `%s ..` (lines %d-%d): positions/filter/collect_vec chain -> the index loop it is (closure bodies unchanged)"
-                % (prefix, line_of(src, pos), line_of(src, end - 1)))
+            plain = skip_e is None and take_e is None and all(kd != "map" for (kd, _x, _b) in stages)
             # template text: the loop invariant, then (optionally, after a line `// on-push:`) ghost text placed right after the push;
             # `<i>_prev` names the vector's view before the push
             inv_text, push_text = text, ""
             if "// on-push:" in text:
                 inv_text, push_text = text.split("// on-push:", 1)
                 push_text = push_text.split("\n", 1)[1] if "\n" in push_text else ""
+            desc = "statement `%s ..` (lines %d-%d): %spositions/filter%s/collect_vec chain -> the index loop it is (closure bodies unchanged)" % (
+                prefix, line_of(src, pos), line_of(src, end - 1), "" if plain else "skip/take/", "" if plain else "/map")
+            if plain:
+                add(pos, pos, "let mut %s: Vec<usize> = Vec::new(); let mut %s: usize = 0;\n        while %s < %s.len()\n" % (name_, iv, iv, recv),
+                    here, "T15", desc)
+            else:
+                # skip(A): the first element looked at is min(A, len); take(B): at most B elements from there; positions counts from there
+                hdr = "let mut %s: Vec<usize> = Vec::new(); let %s_n: usize = %s.len();" % (name_, iv, recv)
+                hdr += " let %s_a: usize = %s; let %s_lo: usize = if %s_a <= %s_n { %s_a } else { %s_n };" % (iv, skip_e or "0", iv, iv, iv, iv, iv)
+                if take_e is not None:
+                    hdr += " let %s_b: usize = %s; let %s_hi: usize = if %s_b <= %s_n - %s_lo { %s_lo + %s_b } else { %s_n };" % (iv, take_e, iv, iv, iv, iv, iv, iv, iv)
+                else:
+                    hdr += " let %s_hi: usize = %s_n;" % (iv, iv)
+                add(pos, pos, hdr + " let mut %s: usize = %s_lo;\n        while %s < %s_hi\n" % (iv, iv, iv, iv), here, "T15", desc)
+            if not plain:
+                # facts about the generated bounds that any invariant of this loop needs (the rule's own, not the template's)
+                inv_text = re.sub(r"\binvariant\b", "invariant\n                %s_lo <= %s, %s <= %s_hi, %s_hi <= %s_n, %s_n == %s@.len(),"
+                                  % (iv, iv, iv, iv, iv, iv, iv, recv), inv_text, count=1)
             add(pos, pos, inv_text.rstrip("\n") + "\n", origin, None)
             parts = ["        { let %s = &%s[%s]; let %s_c0 = %s; if %s_c0 {" % (stages[0][1], recv, iv, iv, stages[0][2], iv)]
-            for si, (_a, x_, b_) in enumerate(stages[1:], 1):
-                parts.append(" let %s = %s; let %s_c%d = %s; if %s_c%d {" % (x_, iv, iv, si, b_, iv, si))
-            parts.append(" let ghost %s_prev = %s@; %s.push(%s);\n%s\n" % (iv, name_, name_, iv, push_text))
-            parts.append("}" * len(stages))
+            cur = iv if plain else "%s_v0" % iv
+            if not plain:
+                parts.append(" let %s_v0: usize = %s - %s_lo;" % (iv, iv, iv))
+            nopen = 1
+            for si, (kd, x_, b_) in enumerate(stages[1:], 1):
+                if kd == "filter":
+                    parts.append(" let %s = %s; let %s_c%d = %s; if %s_c%d {" % (x_, cur, iv, si, b_, iv, si))
+                    nopen += 1
+                else:
+                    parts.append(" let %s_v%d: usize = { let %s = %s; %s };" % (iv, si, x_, cur, b_))
+                    cur = "%s_v%d" % (iv, si)
+            parts.append(" let ghost %s_prev = %s@; %s.push(%s);\n%s\n" % (iv, name_, name_, cur, push_text))
+            parts.append("}" * nopen)
             parts.append(" %s += 1; }" % iv)
             add(pos, end, "".join(parts), here, None)
         elif d == "replace-stmt":
